@@ -95,21 +95,37 @@ impl OutcomeTestGenerator for Outcome {
                 TestCaseError::MalformedOutput(diff) => {
                     let mut generated = self.generate_testcase_expression();
 
-                    // output the actual recorded output lines
+                    // output the actual recorded output lines; `first`: the line
+                    // that follows the shell expression (where `> ` continues it)
+                    let mut first = true;
                     for diff_line in diff.lines.iter() {
                         match diff_line {
                             DiffLine::MatchedExpectation {
                                 index: _,
                                 expectation,
-                                lines: _,
+                                lines,
                             } => {
-                                generated.push_str(&expectation.original_string().assure_newline())
+                                let original = expectation.original_string();
+                                if first && original.starts_with("> ") {
+                                    // was fine behind another expectation, is not
+                                    // any more: write what it has matched instead
+                                    for (_, line) in lines {
+                                        let line =
+                                            formatln!("{}", self.generate_expectation(line, first));
+                                        generated.push_str(&line);
+                                        first = false;
+                                    }
+                                } else {
+                                    generated.push_str(&original.assure_newline())
+                                }
+                                first = false;
                             }
                             DiffLine::UnexpectedLines { lines } => {
-                                for (index, line) in lines {
+                                for (_, line) in lines {
                                     let line =
-                                        formatln!("{}", self.generate_expectation(line, *index == 0));
-                                    generated.push_str(&line)
+                                        formatln!("{}", self.generate_expectation(line, first));
+                                    generated.push_str(&line);
+                                    first = false;
                                 }
                             }
                             _ => continue,
